@@ -105,7 +105,13 @@ ExecStmts(sts, j, loc, obs, heap) ==
        CASE st.k = "assign" -> LET v == RvalVal(st.rv, loc, heap) IN
                                IF IsUndef(v) THEN [loc |-> loc, obs |-> obs, bad |-> TRUE]
                                ELSE ExecStmts(sts, j + 1, [loc EXCEPT ![st.l + 1] = v], obs, heap)
-         [] st.k = "exec" -> ExecStmts(sts, j + 1, loc, obs, heap)
+         [] st.k = "exec" -> \* an element write on a list held by a local changes that local (a1[1] = a2;); other executed rvalues have no effect on locals
+                             IF st.rv.k = "wsub" /\ st.rv.o.k = "loc"
+                             THEN LET cur == loc[st.rv.o.i + 1]  ix == OpVal(st.rv.i, loc)  v == OpVal(st.rv.a, loc) IN
+                                  IF IsUndef(cur) \/ IsUndef(ix) \/ IsUndef(v) \/ cur.t # "list" THEN [loc |-> loc, obs |-> obs, bad |-> TRUE]
+                                  ELSE IF ix.i < 0 \/ ix.i >= Len(cur.l) THEN [loc |-> loc, obs |-> obs, bad |-> TRUE]
+                                  ELSE ExecStmts(sts, j + 1, [loc EXCEPT ![st.rv.o.i + 1] = VList([cur.l EXCEPT ![ix.i + 1] = v.s])], obs, heap)
+                             ELSE ExecStmts(sts, j + 1, loc, obs, heap)
          [] st.k = "observe" -> LET snd == loc[st.l + 1] IN
                                 IF snd.t # "ptr" THEN [loc |-> loc, obs |-> obs, bad |-> TRUE]
                                 ELSE ExecStmts(sts, j + 1, loc, [obs EXCEPT ![st.h + 1] = Observe(@, snd.s, st.sig.name)], heap)
